@@ -20,6 +20,9 @@
 \*                       lambda: creates it and binds it to a private name; comp: evaluates it)
 \*              call c   calls the def/lambda child c defined in this scope
 \*              locset n (class only) locals()['n'] = '<fresh tag>'
+\*              supref   (def only) mentions the name `super` without calling it
+\*            the name __class__ (when it is in Names) is only ever USED, in def/lambda/comp scopes;
+\*            its value is logged as the name of the class object
 \*            expression scopes (lambda body, comp element):  use n;  child c (lambda: created and
 \*              called at once; comp: evaluated)
 \*          every event of a statement scope is guarded `try: ... except NameError: log 'NameError'`.
@@ -46,6 +49,7 @@ EvDefs(P, s, i, n) ==
   LET e == P[s].ev[i] IN
   IF e.op \in {"bind", "del"} /\ e.n = n THEN {"L"}
   ELSE IF e.op = "use" /\ e.n = n THEN {"U"}
+  ELSE IF e.op = "supref" /\ n = CLS THEN {"U"}        \* the name `super` in a function block counts as a use of __class__
   ELSE IF e.op = "child" THEN
        \* defaults and the first iterable are evaluated in the defining scope
        (IF (\E m \in Names : P[e.c].par[m].k = "dflt" /\ P[e.c].par[m].from = n) \/ P[e.c].iter = n THEN {"U"} ELSE {})
@@ -95,7 +99,7 @@ CellVal(st, k) == IF k \in 1..Len(st.cells) THEN st.cells[k] ELSE UNB
 \* declares it global (the class body is skipped by the reference, but must hand the cell down)
 Captures(B, b, n) == \/ ClassifyD(B, b, n) = FREE
                      \/ (B[b].type = "class" /\ \E d \in Desc(B, b) : RefersFree(B, d, n) /\ Binder(B, d, n) \in AncSet(B, b))
-Tables(B) == [cls |-> ClassTable(B), cap |-> TLCEval([b \in 1..Len(B) |-> TLCEval([n \in Names |-> Captures(B, b, n)])])]
+Tables(B) == [cls |-> ClassTable(B), clscell |-> TLCEval([b \in 1..Len(B) |-> ClsCell(B, b)]), cap |-> TLCEval([b \in 1..Len(B) |-> TLCEval([n \in Names |-> Captures(B, b, n)])])]
 \* the value a LOAD of n in scope s yields (UNB = NameError); C = Tables(Blocks(P))
 LoadN(P, C, s, n, st, fr) ==
   LET k == P[s].kind  c == C.cls[s][n] IN
@@ -128,7 +132,7 @@ SetSlot(P, C, s, n, v, X) ==
   ELSE IF sk = "loc" THEN [X EXCEPT !.fr.loc[n] = v]
   ELSE [X EXCEPT !.st.bad = TRUE]
 \* origin label of a log entry: which resolution rule was exercised (partition of findings)
-Org(P, C, s, n, what) == what \o ":" \o P[s].kind \o "/" \o C.cls[s][n]
+Org(P, C, s, n, what) == what \o (IF n = CLS THEN "(__class__)" ELSE "") \o ":" \o P[s].kind \o "/" \o C.cls[s][n]
 
 \* function object for child c created in scope s with frame fr: captures the CELLS (not the values)
 \* of every name that is free in c; the default values dv
@@ -181,9 +185,16 @@ Define(P, C, s, i, X) ==
      ELSE IF ~ClosureOk(P, C, c, X.fr) THEN [X EXCEPT !.st.bad = TRUE]
      ELSE LET clo == Closure(P, C, c, X.fr, dvs) IN
           IF k = "class" THEN      \* the body runs now, in a namespace of its own
-               LET R == RunBody(P, C, c, [st |-> X.st, exc |-> FALSE,
-                                         fr |-> [loc |-> NoFn.df, cl |-> clo.cl, fn |-> NoFns(P)]])
-               IN [X EXCEPT !.st = R.st, !.exc = R.exc]
+               \* a class whose nested code refers to __class__ owns a new, still empty cell for it;
+               \* the cell receives the class object when the body has finished
+               LET own == C.clscell[c]
+                   k0 == Len(X.st.cells) + 1
+                   st0 == IF own THEN [X.st EXCEPT !.cells = Append(@, UNB)] ELSE X.st
+                   cl0 == IF own THEN [clo.cl EXCEPT ![CLS] = k0] ELSE clo.cl
+                   R == RunBody(P, C, c, [st |-> st0, exc |-> FALSE,
+                                         fr |-> [loc |-> NoFn.df, cl |-> cl0, fn |-> NoFns(P)]])
+                   st1 == IF own THEN [R.st EXCEPT !.cells[k0] = "C" \o ToString(c)] ELSE R.st
+               IN [X EXCEPT !.st = st1, !.exc = R.exc]
           ELSE LET X1 == [X EXCEPT !.st.fns = Append(@, clo), !.fr.fn[c] = clo] IN
                IF k = "lambda" /\ ~StmtKind(P[s].kind)
                THEN LET R == CallFn(P, C, clo, Tag("a", s, i), X1.st) IN [X1 EXCEPT !.st = R.st, !.exc = R.exc]
@@ -234,10 +245,10 @@ AlgAgrees(P) ==
 FlagRank(a) == CASE a = "G" -> 1 [] a = "L" -> 2 [] a = "N" -> 3 [] a = "P" -> 4 [] OTHER -> 5
 Expect(P) ==
   LET why == RejectWhy(P) B == Blocks(P) IN
-  IF why # "" THEN [p |-> P, reject |-> TRUE, why |-> why, cls |-> <<>>, cap |-> <<>>, flags |-> <<>>, log |-> <<>>, org |-> <<>>,
+  IF why # "" THEN [p |-> P, reject |-> TRUE, why |-> why, cls |-> <<>>, cap |-> <<>>, clscell |-> <<>>, flags |-> <<>>, log |-> <<>>, org |-> <<>>,
                     specok |-> (why # "bad-declaration" \/ AlgAgrees(P))]
   ELSE LET R == Run(P) IN
-       [p |-> P, reject |-> FALSE, why |-> "", cls |-> ClassTable(B), cap |-> Tables(B).cap,
+       [p |-> P, reject |-> FALSE, why |-> "", cls |-> ClassTable(B), cap |-> Tables(B).cap, clscell |-> Tables(B).clscell,
         flags |-> [b \in 1..Len(B) |-> [n \in Names |-> SetToSortSeq(B[b].flags[n], LAMBDA a, b2 : FlagRank(a) < FlagRank(b2))]],
         log |-> R.log, org |-> R.org, specok |-> (~R.bad /\ AlgAgrees(P))]
 ====
